@@ -318,6 +318,43 @@ theorem validateFlateLZW_bounds (v p colors bpc columns : Int)
       all_goals (repeat' split at h)
       all_goals first | (exfalso; simp at h; done) | omega | (exfalso; simp_all; done)
 
+/-- `predictParams` in closed form: zero values are replaced by the defaults 1, 8, 1 and predictor 1 -/
+theorem predictParams_eq (p colors bpc columns : Int) :
+    pdf_predictParams p colors bpc columns =
+      ⟨if colors = 0 then 1 else colors, if bpc = 0 then 8 else bpc, if columns = 0 then 1 else columns,
+       if p = 0 then 1 else p⟩ := by
+  unfold pdf_predictParams
+  by_cases h1 : colors = 0 <;> by_cases h2 : bpc = 0 <;> by_cases h3 : columns = 0 <;> by_cases h4 : p = 0 <;>
+    simp [Id.run, pure, h1, h2, h3, h4]
+
+/-- without a predictor (`p` is 0 or `FlatePredictorNone`) `predictParams` selects predictor 1, which
+`Params.Validate` accepts outright -/
+theorem validate_predictParams_noPredictor (p colors bpc columns : Int) (hu : p = 0 ∨ p = 1) :
+    pred_Params_Validate (pdf_predictParams p colors bpc columns) = none := by
+  rw [predictParams_eq]
+  unfold pred_Params_Validate
+  rcases hu with h0 | h0 <;> subst h0 <;> simp [Id.run, pure]
+
+/-- **validate_ok_encode_ok** on the generated code (library fix 879cf71, former finding D22): for ALL
+arguments, parameters accepted by `validateFlateLZW` are accepted by `predict.Params.Validate` on
+`predictParams(…)`, so `predict.NewWriter` / `NewReader` do not fail on the parameters -/
+theorem validate_ok_encode_ok (v p colors bpc columns : Int)
+    (h : pdf_validateFlateLZW v p colors bpc columns = none) :
+    pred_Params_Validate (pdf_predictParams p colors bpc columns) = none := by
+  by_cases hu : p = 0 ∨ p = 1
+  · exact validate_predictParams_noPredictor p colors bpc columns hu
+  · cases hE : pred_Params_Validate (pdf_predictParams p colors bpc columns) with
+    | none => rfl
+    | some e =>
+      exfalso
+      unfold pdf_validateFlateLZW pdf_checkVersionV at h
+      simp only [Id.run, pure, hE] at h
+      have e1 : (p != 0 && p != 1) = true := by simp; omega
+      simp only [e1, Bool.not_true, Bool.false_and, Bool.false_eq_true, if_false, if_true, Option.isSome_some] at h
+      revert h
+      repeat' split
+      all_goals first | (simp; done) | (simp_all; done)
+
 /-! ## internal/filter/jbig2: overflow guards -/
 
 /-- JBIG2 work budget: base + per-byte·max(rawLen,0), capped; bounded for every input length -/
